@@ -2,7 +2,7 @@
 SPECIFICATION Spec
 CONSTANTS
   NC = 2
-  MaxCommits = 3
+  MaxCommits = 2
   MaxSubs = 1
   MaxRestores = 0
   Profile = "health"
